@@ -86,13 +86,25 @@ def main():
         jobs = []
         if rp and rp.get("engine") == "play":
             if rp.get("song"):
-                p = os.path.join(tmpd, "r.mod"); open(p, "wb").write(modgen.write_mod(rp["song"])); jobs.append((p, rp["interp"], rp["script"], rp["song"]))
+                fmt = rp.get("format", "mod")
+                p = os.path.join(tmpd, "r." + fmt); open(p, "wb").write(modgen.WRITERS[fmt](rp["song"])); jobs.append((p, rp["interp"], rp["script"], (fmt, rp["song"])))
             else:
                 jobs.append((os.path.join(V.REPO, rp["path"]), rp["interp"], rp["script"], None))
         elif not rp:
             files = [f for f in V.corpus_files() if os.path.getsize(f) < 400000]
             for f in sorted(rng.sample(files, min(len(files), 60 if tier == "quick" else len(files)))):
                 jobs.append((f, rng.choice((0, 1, 2)), None, None))
+            # sweep: every corpus module, straight playback with an interpolating mixer (sample swaps, extreme periods, key-off /
+            # delay combinations and the like live in individual test modules)
+            for f in files:
+                jobs.append((f, rng.choice((1, 2)), "P%d" % (160 if tier == "quick" else 1500), None))
+            # generated XMs whose volume envelope has out-of-order / duplicate / extreme nodes, sustain and loop points anywhere
+            for i in range(30 if tier == "quick" else 600):
+                s = modgen.random_flow_song(rng, "xm", vocab=('speed', 'jump', 'break'), max_orders=3, max_pats=2, density=0.05)
+                n = rng.randrange(1, 7)
+                s['venv'] = [(rng.choice((0, 1, 5, 10, 10, 20, 300, 65535)), rng.choice((0, 16, 32, 64, 65, 255))) for _ in range(n)]
+                s['venv_type'] = rng.choice((1, 3, 5, 7)); s['venv_sus'] = rng.randrange(0, 8); s['venv_lps'] = rng.randrange(0, 8); s['venv_lpe'] = rng.randrange(0, 8)
+                p = os.path.join(tmpd, "e%04d.xm" % i); open(p, "wb").write(modgen.write_xm(s)); jobs.append((p, rng.choice((0, 1, 2)), None, ("xm", s)))
             for i in range(24 if tier == "quick" else 400):
                 # MOD songs with tiny loops (1-3 words, at the start / end of the sample) and the invert-loop effect
                 s = modgen.random_flow_song(rng, "mod", vocab=('speed', 'jump', 'break', 'loop'), max_orders=4, max_pats=3, density=0.05)
@@ -101,7 +113,7 @@ def main():
                 for pat in s['patterns']:
                     for r in range(0, 64, rng.choice((4, 8, 16))):
                         pat[r][rng.randrange(4)] = dict(note=rng.randrange(13, 37), ins=1, fx=('raw', (0x0e, 0xf0 | rng.choice((0, 1, 4, 9, 15)))) if rng.random() < 0.7 else None)
-                p = os.path.join(tmpd, "g%04d.mod" % i); open(p, "wb").write(modgen.write_mod(s)); jobs.append((p, rng.choice((0, 1, 2)), None, s))
+                p = os.path.join(tmpd, "g%04d.mod" % i); open(p, "wb").write(modgen.write_mod(s)); jobs.append((p, rng.choice((0, 1, 2)), None, ("mod", s)))
         lines = []
         for k, (path, interp, script, song) in enumerate(jobs):
             if script is None:
@@ -118,7 +130,7 @@ def main():
         for k, (path, interp, script, song) in enumerate(jobs):
             if k >= len(blocks) or "K " not in blocks[k]: continue
             rep = {"engine": "play", "interp": interp, "script": script}
-            if song: rep["song"] = song
+            if song: rep["format"], rep["song"] = song
             else: rep["path"] = os.path.relpath(path, V.REPO)
             smp = {}; evs = []; diffs = []; inv = 0; calls = 0
             for l in blocks[k].split("\n"):
@@ -166,7 +178,7 @@ def main():
                                       broken="protocol premise of clean_run_preserves_samples on the real event log"), key="c15:protocol")
         if r and r.returncode != 0:
             k = len(blocks) - 1; path, interp, script, song = jobs[min(k, len(jobs) - 1)]
-            ck.violation({"engine": "play", "interp": interp, "script": script, "song": song, "path": None if song else os.path.relpath(path, V.REPO),
+            ck.violation({"engine": "play", "interp": interp, "script": script, "song": song[1] if song else None, "format": song[0] if song else None, "path": None if song else os.path.relpath(path, V.REPO),
                           "broken": "sanitizer report / crash during playback", "stderr": r.stderr[-2000:]}, key="c15-crash")
     finally:
         shutil.rmtree(tmpd, ignore_errors=True)
